@@ -228,6 +228,10 @@ def b_int(ex, s, args, kw, node):
             s.assume(z3.Implies(valid(v.z), z3.And(
                 n >= 1, z3.Or(z3.And(last >= 48, last <= top), isws(last)),
                 z3.Or(z3.And(v.z[0] >= 48, v.z[0] <= top), v.z[0] == 43, v.z[0] == 45, isws(v.z[0])))))
+            # a literal that starts with a digit or '+' is not negative (also puts the value term into the path
+            # condition, where the replay's model refinement looks for abstracted functions to make real)
+            s.assume(z3.Implies(z3.And(valid(v.z), z3.Or(z3.And(v.z[0] >= 48, v.z[0] <= top), v.z[0] == 43)),
+                                val(v.z) >= 0))
         res = []
         for s2, ok in ex.branch(s, valid(v.z), node):
             res.append((s2, VInt(val(v.z))) if ok else _raise(s2, 'ValueError'))
@@ -1542,3 +1546,25 @@ def by_join_genexp(ex, s, recv, r, args, kw, node):
 
 BYTES_METHODS['join'] = by_join_genexp
 STR_METHODS['join'] = by_join_genexp
+
+
+def st_rsplit1(ex, s, recv, r, args, kw, node):
+    """str.rsplit(sep, 1) with a concrete non-empty sep, exact: [x] when sep does not occur, else
+    [x[:k], x[k+len(sep):]] for the LAST occurrence k (concrete 1- or 2-element list; one path each)"""
+    ms = args[1] if len(args) > 1 else kw.get('maxsplit')
+    sep = ex.deref(s, args[0]) if args and args[0] is not VNone else None
+    if not (isinstance(r, VStr) and sep is not None and concrete_str(sep) and ms is not None and concrete_int(ms) == 1):
+        raise Unsupported('rsplit: only str.rsplit(<literal>, 1) is modelled')
+    out = []
+    for s2, has in ex.branch(s, z3.Contains(r.z, sep.z), node):
+        if not has:
+            out.append((s2, s2.alloc(VList([r]))))
+            continue
+        k = z3.LastIndexOf(r.z, sep.z)
+        a = z3.SubString(r.z, z3.IntVal(0), k)
+        b = z3.SubString(r.z, k + z3.Length(sep.z), z3.Length(r.z) - k - z3.Length(sep.z))
+        out.append((s2, s2.alloc(VList([VStr(a), VStr(b)]))))
+    return out
+
+
+STR_METHODS.update({'rsplit': st_rsplit1})
